@@ -4,19 +4,39 @@
 (* (property C11), std and no_std builds.                                  *)
 (*                                                                         *)
 (* Header  {"ev":"reset","comp":"rms",                                     *)
-(*          "cfg":{n,fmt,ch,via,build,store,src},...}                      *)
+(*          "cfg":{n,fmt,ch,via,build,store,src,sc,profile},...}           *)
 (*   build "std" | "no_std" selects the square-root acceptance predicate.  *)
 (*   store  ring storage handed to Rms::new / .rms(): vec | box | slice    *)
 (*          (&mut [T]) | array ([T; n]); src = source signal of an adaptor *)
 (*          run (iter: dasp's from_iter; gen: a queue the driver fills).   *)
 (*          Neither changes what is demanded: every storage is the same    *)
 (*          window of N frames.                                            *)
+(*   sc     value region of a float execution: the driver placed every     *)
+(*          stimulus value times 2^sc (the logged inputs a.x are the real  *)
+(*          ones and are what is judged; integer formats: sc = 0).         *)
+(*   profile  build profile of the harness binary (debug | release).  The  *)
+(*          property makes no difference between them: the SAME clauses    *)
+(*          are demanded in both (no outcome of this component may depend  *)
+(*          on debug assertions or overflow checks).                       *)
+(* Domain of the inputs: finite, and N x^2 at least two binary orders      *)
+(* below the largest finite value of the float the detector computes in    *)
+(* (InputOK): |x| < 2^E with 2E + bitlen(N) + 1 <= bias, i.e. for N <= 64  *)
+(* |x| < 2^59 (f32) / 2^507 (f64).  Beyond it the squares or their window  *)
+(* sum overflow and there is no real RMS to compare with.  There is NO     *)
+(* lower end: subnormal inputs, subnormal and vanishing squares are judged *)
+(* (Rms.tla: AbsEps / TinySum).                                            *)
 (* An execution owns a growing list of detector INSTANCES (`ins`); every   *)
 (* event names the one it acts on (a.i).  Instance 0 is built by the       *)
 (* header and is the bare detector (via "direct") or the adaptor (via      *)
 (* "signal").                                                              *)
 (*   bare detector: next / next_squared / current / rms_reset {i},         *)
-(*                  rms_clone {i, j}, rms_move {i}                         *)
+(*                  rms_clone {i, j}, rms_move {i},                        *)
+(*                  rms_fmt {i}: the detector rendered with {:?} (its      *)
+(*                  Debug impl) into a sink without heap memory -- an      *)
+(*                  operation like any other: it must return Ok, change    *)
+(*                  nothing (no-op on the abstract state: every later      *)
+(*                  output is still judged against the same window) and    *)
+(*                  leave the heap alone.  The text is not judged.         *)
 (*   adaptor:       sig_next / sig_next_squared {i, x} (frames pulled from *)
 (*                  the source signal; a.x = the frame pulled),            *)
 (*                  sig_clone {i, j}, sig_move {i}, sig_parts {i}          *)
@@ -44,17 +64,21 @@ VARIABLES l,      \* next line
           skip
 vars == << l, cf, ins, skip >>
 Ev == Rec[l]
-NoCfg == [n |-> 0, fmt |-> "f32", ch |-> 0, via |-> "direct", build |-> "std", store |-> "vec", src |-> "iter"]
+NoCfg == [n |-> 0, fmt |-> "f32", ch |-> 0, via |-> "direct", build |-> "std", store |-> "vec", src |-> "iter", sc |-> 0,
+          profile |-> "debug"]
 
 RmsFmts == {"f32", "f64", "i8", "i16", "i32", "u16", "i24", "i48", "i64", "u8", "u24", "u32", "u48", "u64"}
 FOf(c) == FmtOf(FloatOf(c.fmt))
 
-\* a logged input sample: well formed, in range, finite, |x| <= 2^20 (the property presupposes finite squares)
-InputOK(fmt, j) ==
+\* a logged input sample: well formed, in range, finite, and (the property presupposes finite squares and a finite
+\* window sum) |x| < 2^E with 2E + bitlen(n) + 1 <= bias: then n x^2 < 2^(bias - 1), two binary orders below the
+\* largest finite value, so neither a square nor any running or recomputed sum of n of them can overflow
+MagOK(F, n, d) == DIsZero(d) \/ 2 * (d.exp + BBitLen(d.mag)) + BitLenSmall(n) + 1 <= F.bias
+InputOK(fmt, n, j) ==
   IF IsFloat(fmt) THEN /\ IsFields(j) /\ FIsFinite(FmtOf(fmt), j)
-                       /\ DLe(DAbs(Dec(FmtOf(fmt), j)), DPow2(20))
+                       /\ MagOK(FmtOf(fmt), n, Dec(FmtOf(fmt), j))
   ELSE IsSJson(j) /\ InRange(fmt, SFromJson(j))
-FrameOK(c, x) == Len(x) = c.ch /\ \A i \in 1..c.ch : InputOK(c.fmt, x[i])
+FrameOK(c, x) == Len(x) = c.ch /\ \A i \in 1..c.ch : InputOK(c.fmt, c.n, x[i])
 Push(c, st, x) == [i \in 1..c.ch |-> TPush(FOf(c), ConvSlack(c.fmt), st[i], AmpD(c.fmt, SampleFromJson(c.fmt, x[i])))]
 
 ValOK(c, r) == r.k = "val" /\ Len(r.v) = c.ch
@@ -66,9 +90,11 @@ Fresh(c) == [i \in 1..c.ch |-> TInit(c.n)]
 CloneOf(st) == [i \in DOMAIN st |-> RmsClone(st[i])]
 AcceptReset ==
   LET c == Ev.cfg IN
-  /\ Ev.comp = "rms" /\ c.n >= 1 /\ c.ch >= 1 /\ c.fmt \in RmsFmts
+  /\ Ev.comp = "rms" /\ c.n >= 1 /\ c.n < 32768 /\ c.ch >= 1 /\ c.fmt \in RmsFmts
   /\ c.via \in {"direct", "signal"} /\ c.build \in {"std", "no_std"}
   /\ c.store \in {"vec", "box", "slice", "array"} /\ c.src \in {"iter", "gen"}
+  /\ c.profile \in {"debug", "release"}
+  /\ c.sc >= -1022 /\ c.sc <= 1023 /\ (c.sc = 0 \/ IsFloat(c.fmt))
   /\ Ev.r.k = "unit" /\ Ev.o.ok
   /\ Ev.o.wf = c.n                                         \* window_frames()
   /\ RootsOK(c, Fresh(c), [k |-> "val", v |-> Ev.o.cur])   \* current() of a new detector
@@ -78,7 +104,7 @@ Feeds == {"next", "next_squared", "sig_next", "sig_next_squared"}
 IdxOK == Ev.a.i >= 0 /\ Ev.a.i < Len(ins)
 Me == ins[Ev.a.i + 1]
 ViaOK == IF Me.via = "signal" THEN Ev.ev \in {"sig_next", "sig_next_squared", "sig_clone", "sig_move", "sig_parts"}
-         ELSE Ev.ev \in {"next", "next_squared", "current", "rms_reset", "rms_clone", "rms_move"}
+         ELSE Ev.ev \in {"next", "next_squared", "current", "rms_reset", "rms_clone", "rms_move", "rms_fmt"}
 IsClone == Ev.ev \in {"rms_clone", "sig_clone"}
 IsMove  == Ev.ev \in {"rms_move", "sig_move", "sig_parts"}
 \* state of the event's own instance after the event
@@ -98,7 +124,10 @@ AcceptOp(aft) ==
                      /\ (Ev.ev = "rms_clone" => /\ Ev.o.ok /\ Ev.o.wf = cf.n
                                                 /\ RootsOK(cf, CloneOf(aft), [k |-> "val", v |-> Ev.o.cur]))
        [] IsMove  -> Ev.r.k = "unit"
-\* clones and moves are not steady-state calls (a clone of a Vec-backed window allocates): no heap conjunct
+       \* {:?}: returns Ok; the state of the instance stays what it was (After = Me.st); the text is not judged
+       [] Ev.ev = "rms_fmt" -> Ev.r.k = "unit" /\ Ev.o.len >= 0
+\* clones and moves are not steady-state calls (a clone of a Vec-backed window allocates): no heap conjunct;
+\* every other call -- rendering with {:?} included -- is
 HeapOK == IsClone \/ IsMove \/ Ev.h = << 0, 0, 0 >>
 
 Consume == l <= Len(Rec) /\ l' = l + 1
